@@ -263,6 +263,10 @@ def shards(tier, seed):
         for cost, msl in (("L2", 1), ("L2", 2), ("GaussianVar", 2)):
             if n >= 2 * msl:
                 sh.append(("data2", (n, cost, msl, 0.05), 0, 4 ** n))
+    # fitted on a shorter prefix, predicting the full series (penalty read back from the fitted detector)
+    for n in (6, 7) if tier == "quick" else (6, 7, 8):
+        for cost, msl, k in (("L2", 1, 2), ("L2", 2, 4), ("GaussianVar", 2, n - 1)):
+            sh.append(("datafit", (n, cost, msl, 0.5, k), 0, 3 ** n))
     # big shards first for load balance
     sh.sort(key=lambda s: -(s[3] - s[2]))
     return sh
@@ -298,6 +302,11 @@ def run_shard(shard):
             if p == 2:
                 s2 = allv[partner(i, len(allv))]
                 case["slacks2"] = list(s2)
+            check_case(acc, case)
+    elif kind == "datafit":
+        n, cost, msl, scale, k = cfg
+        for xs in itertools.islice(itertools.product((0, 1, 3), repeat=n), lo, hi):
+            case = {"mode": "data", "x": list(xs), "cost": cost, "msl": msl, "scale": scale, "fit_rows": k}
             check_case(acc, case)
     elif kind == "data2":
         n, cost, msl, scale = cfg
@@ -339,7 +348,7 @@ def check_case(acc, case):
                 n, msl = len(x), case["msl"]
                 X = pd.DataFrame(x)
                 det = PELT(make_cost(case["cost"]), penalty_scale=case["scale"], min_segment_length=msl)
-                det.fit(X)
+                det.fit(X if not case.get("fit_rows") else X.iloc[: case["fit_rows"]])
                 pen = float(det.penalty_)
                 y = det.predict(X)
                 cpts = [int(c) for c in y["ilocs"]]
